@@ -242,6 +242,19 @@ class Engine:
         self.model = None
         return P.SymInt(var)
 
+    def string(self, name, maxlen, alphabet):
+        """an arbitrary string over `alphabet` of length 0..maxlen (length split per value)"""
+        from .symstr import SymStr
+        n = self.choice(name + '.len', list(range(maxlen + 1)))
+        codes = sorted({ord(ch) for ch in alphabet})
+        chars = []
+        for i in range(n):
+            var = z3.Int('%s.%d' % (name, i))
+            self.inputs['%s.%d' % (name, i)] = ('int', var, 'int')
+            self._add(z3.Or(*[var == c for c in codes]))
+            chars.append(var)
+        return SymStr(chars, codes)
+
     def date(self, name):
         """an arbitrary calendar-valid date, year 1..9999"""
         from . import proxies as P
